@@ -846,7 +846,11 @@ func runAdmit(o *hx.Out, k int, r *prng.R, inv string) {
 			if s.reserved {
 				expect = "ok"
 			}
-			tx.Attributes = append(tx.Attributes, transaction.Attribute{Type: transaction.AttrType(0xe0 + r.Intn(32)), Value: &transaction.Reserved{Value: r.Bytes(r.Intn(5))}})
+			rt := transaction.AttrType(0xe0 + r.Intn(32))
+			for tx.HasAttribute(rt) { // one attribute per reserved type, a second one would be malformed
+				rt = transaction.AttrType(0xe0 + r.Intn(32))
+			}
+			tx.Attributes = append(tx.Attributes, transaction.Attribute{Type: rt, Value: &transaction.Reserved{Value: r.Bytes(r.Intn(5))}})
 		case "oracle":
 			tx.Attributes = append(tx.Attributes, transaction.Attribute{Type: transaction.OracleResponseT, Value: &transaction.OracleResponse{ID: r.U64() % 5, Code: transaction.Success, Result: r.Bytes(r.Intn(4))}})
 		case "notary":
